@@ -29,7 +29,7 @@ def run_one(sd, props, tier, jobs):
             res["error"] = "patch does not apply: " + p.stderr.decode()[-300:]
             return res
         env = dict(os.environ, VERIF_REPO=wt, VERIF_CACHE=os.path.join(scratch, "cache"), VERIF_OUTROOT=os.path.join(scratch, "out"),
-                   VERIF_JOBS=str(jobs), VERIF_REPLAY_TIMEOUT="120")
+                   VERIF_JOBS=str(jobs), VERIF_REPLAY_TIMEOUT="120", VERIF_STAGE_TIMEOUT="600")
         for pr in props:
             t0 = time.time()
             p = subprocess.run([os.path.join(VERIF, "check"), pr, tier], stdout=subprocess.PIPE, stderr=subprocess.STDOUT, env=env, cwd=VERIF)
